@@ -22,15 +22,14 @@ structure Src where
 
 def traceSource : Source Nat Src Nat :=
   { next := fun s => match s.evs with
-      | .tok t :: r => (some t, { evs := r, consumed := s.consumed + 1 })
-      | _ => (none, s),
+      | .tok t :: r => .ok (some t, { evs := r, consumed := s.consumed + 1 })
+      | _ => .ok (none, s),
     onError := fun s _ => match s.evs with
       | .inj t :: r => .ok (some t, { evs := r, consumed := s.consumed + 1 })
-      | _ => .error s.consumed,
-    curPos := fun _ => (0, 0) }
+      | _ => .error s.consumed }
 
 /-- semantic values: the list of reductions so far is threaded through a counter-free log -/
-def logSem : Sem Nat (List Nat) Nat :=
+def logSem : Sem Nat (List Nat) Src Nat :=
   { ty := id, leaf := fun _ => [], reduce := fun p args _ => .ok (args.foldl (· ++ ·) [] ++ [p]) }
 
 def parseEvents (ws : List String) : Option (List Ev) :=
